@@ -9,20 +9,21 @@ use std::panic::{catch_unwind, AssertUnwindSafe};
 use std::sync::{Arc, Condvar, Mutex};
 use std::time::{Duration, Instant};
 
-pub struct Case { pub pool: usize, pub hold: Option<u32>, pub ops: Vec<char>, pub jitter: Option<u64>, pub regs: Vec<Reg> }
+pub struct Case { pub pool: usize, pub hold: Option<u32>, pub ops: Vec<char>, pub jitter: Option<u64>, pub tlf: Option<u32>, pub regs: Vec<Reg> }
 impl Case {
     pub fn head(&self) -> String {
-        format!("async pool={} hold={} jitter={} ops={}", self.pool, self.hold.map(|t| t.to_string()).unwrap_or("-".into()),
-                self.jitter.map(|t| t.to_string()).unwrap_or("-".into()),
+        format!("async pool={} hold={} jitter={} tlf={} ops={}", self.pool, self.hold.map(|t| t.to_string()).unwrap_or("-".into()),
+                self.jitter.map(|t| t.to_string()).unwrap_or("-".into()), self.tlf.map(|t| t.to_string()).unwrap_or("-".into()),
                 self.ops.iter().map(|c| c.to_string()).collect::<Vec<_>>().join(","))
     }
     pub fn parse(line: &str) -> Case {
         let (head, p) = line.split_once(" :: ").unwrap_or((line, ""));
-        let mut c = Case { pool: 2, hold: None, ops: vec![], jitter: None, regs: from_text(p) };
+        let mut c = Case { pool: 2, hold: None, ops: vec![], jitter: None, tlf: None, regs: from_text(p) };
         for t in head.split(' ') {
             if let Some(v) = t.strip_prefix("pool=") { c.pool = v.parse().unwrap(); }
             if let Some(v) = t.strip_prefix("hold=") { c.hold = v.parse().ok(); }
             if let Some(v) = t.strip_prefix("jitter=") { c.jitter = v.parse().ok(); }
+            if let Some(v) = t.strip_prefix("tlf=") { c.tlf = v.parse().ok(); }
             if let Some(v) = t.strip_prefix("ops=") { c.ops = v.split(',').filter(|s| !s.is_empty()).map(|s| s.chars().next().unwrap()).collect(); }
         }
         c
@@ -69,6 +70,7 @@ pub fn observe(c: &Case, pools: &mut HashMap<usize, Arc<rayon::ThreadPool>>) -> 
     let mut s = String::new();
     let builder = match out.builder { Some(b) => b, None => { s.push_str(&format!("builderr={};", out.err.unwrap_or("?".into()))); return s; } };
     let world = make_world(&c.regs, MapMode::A);
+    let tls: Vec<u32> = c.regs.iter().filter_map(|r| match r { Reg::Tl { tag, .. } => Some(*tag), _ => None }).collect();
     let mut ad = builder.build_async(world);
     let r0 = catch_unwind(AssertUnwindSafe(|| ad.setup()));
     let _ = rec.take();
@@ -77,8 +79,15 @@ pub fn observe(c: &Case, pools: &mut HashMap<usize, Arc<rayon::ThreadPool>>) -> 
     let mut holding = false;
     let mut ok = r0.is_ok();
     for (i, op) in c.ops.iter().enumerate() {
-        // every operation but `running()` may block until the job has ended: open the gate first
-        if *op != 'r' && holding {
+        // every operation but `running()` blocks until the job has ended.  Before a dispatch the gate is opened first (it is
+        // closed again for the new job); for the others it is opened LATE, by a helper thread, while the caller is already
+        // inside the operation: an operation that does not really wait is then seen to return while a system is running
+        let late = *op != 'r' && *op != 'd' && holding;
+        if late {
+            let sc = sched.clone();
+            std::thread::spawn(move || { std::thread::sleep(Duration::from_millis(25)); sc.set(false); });
+        }
+        if *op == 'd' && holding {
             sched.set(false);
             holding = false;
             // let the held system leave before the gate can be closed again (no lost wake-up)
@@ -114,6 +123,12 @@ pub fn observe(c: &Case, pools: &mut HashMap<usize, Arc<rayon::ThreadPool>>) -> 
             Ok(res) => rec.push(Ev::Note(format!("e{}{}{}", i, op, res))),
             Err(_) => { rec.push(Ev::Note(format!("p{}{}", i, op))); ok = false; }
         }
+        if late {
+            // (the helper has opened the gate by now, or does so within its 25 ms: wait for it so that a later dispatch can close it)
+            let start = Instant::now();
+            while *sched.closed.lock().unwrap() && start.elapsed() < Duration::from_secs(2) { std::thread::sleep(Duration::from_micros(200)); }
+            holding = false;
+        }
         if *op == 'd' {
             if let Some(t) = c.hold {
                 // wait until the held system is inside run (it has logged its fetch), if it runs at all in the pool part
@@ -138,11 +153,50 @@ pub fn observe(c: &Case, pools: &mut HashMap<usize, Arc<rayon::ThreadPool>>) -> 
     rec.set_sched(Arc::new(FreeRun));
     let mut multis = Vec::new();
     crate::exec::multi_subtrees(&c.regs, &mut multis);
-    let log = crate::exec::fix_multi(rec.take(), &multis);
+    let raw = rec.take();
+    // the systems visited by every setup() of the operation list, in order (C13)
+    let mut setups: Vec<String> = Vec::new();
+    {
+        let mut cur: Option<(String, Vec<String>)> = None;
+        for e in &raw {
+            match e {
+                Ev::Note(n) if n.starts_with('b') && n.ends_with('s') && n != "bzw" => cur = Some((n[1..n.len() - 1].to_string(), Vec::new())),
+                Ev::Note(n) if (n.starts_with('e') || n.starts_with('p')) && cur.is_some() => {
+                    let (i, v) = cur.take().unwrap();
+                    setups.push(format!("{}{}:{}", if n.starts_with('p') { "!" } else { "" }, i, if v.is_empty() { "-".to_string() } else { v.join(".") }));
+                }
+                Ev::Setup(t) => if let Some((_, v)) = cur.as_mut() { v.push(t.to_string()); },
+                _ => {}
+            }
+        }
+    }
+    let log = crate::exec::fix_multi(raw, &multis);
     let mut runs: Vec<(u32, u64)> = out.handles.runs.iter().map(|(t, r)| (*t, r.load(std::sync::atomic::Ordering::SeqCst))).collect();
     runs.sort();
-    s.push_str(&format!("T={};ok={};runs={};", encode(&log), (ok && rz.is_ok()) as u8,
-                        runs.iter().map(|(t, n)| format!("{}:{}", t, n)).collect::<Vec<_>>().join(",")));
+    s.push_str(&format!("T={};ok={};runs={};setups={};", encode(&log), (ok && rz.is_ok()) as u8,
+                        runs.iter().map(|(t, n)| format!("{}:{}", t, n)).collect::<Vec<_>>().join(","),
+                        if setups.is_empty() { "-".to_string() } else { setups.join(",") }));
+    // epilogue (C14/C12 for the async dispatcher): a thread-local system panics inside wait(); the panic reaches the caller of
+    // wait, the thread-local systems behind it do not run in that wait, and the NEXT dispatch + wait runs everything again
+    if let Some(f) = c.tlf {
+        let tl_f = |log: &[Ev]| -> String {
+            let v: Vec<String> = log.iter().filter_map(|e| match e { Ev::F(t, _, _) if tls.contains(t) => Some(t.to_string()), _ => None }).collect();
+            if v.is_empty() { "-".into() } else { v.join(".") }
+        };
+        rec.faults.lock().unwrap().insert(f);
+        let r1 = catch_unwind(AssertUnwindSafe(|| { ad.dispatch(); ad.wait(); }));
+        let l1 = rec.take();
+        rec.faults.lock().unwrap().clear();
+        let r2 = catch_unwind(AssertUnwindSafe(|| { ad.dispatch(); ad.wait(); }));
+        let l2 = rec.take();
+        let r3 = catch_unwind(AssertUnwindSafe(|| ad.setup()));
+        let s3: Vec<String> = rec.take().iter().filter_map(|e| if let Ev::Setup(t) = e { Some(t.to_string()) } else { None }).collect();
+        let mut runs2: Vec<(u32, u64)> = out.handles.runs.iter().map(|(t, r)| (*t, r.load(std::sync::atomic::Ordering::SeqCst))).collect();
+        runs2.sort();
+        s.push_str(&format!("fe1={};fe1p={};fe2={};fe2p={};fe3={};fe3p={};feruns={};", tl_f(&l1), r1.is_err() as u8, tl_f(&l2), r2.is_err() as u8,
+                            if s3.is_empty() { "-".to_string() } else { s3.join(".") }, r3.is_err() as u8,
+                            runs2.iter().map(|(t, n)| format!("{}:{}", t, n)).collect::<Vec<_>>().join(",")));
+    }
     s
 }
 
@@ -160,5 +214,8 @@ pub fn gen_case(rng: &mut Rng) -> Case {
     let top: Vec<u32> = regs.iter().filter_map(|r| match r { Reg::Sys { tag, .. } => Some(*tag), _ => None }).collect();
     let hold = if !top.is_empty() && rng.chance(1, 2) { Some(top[rng.below(top.len() as u64) as usize]) } else { None };
     let jitter = if hold.is_none() && rng.chance(1, 2) { Some(rng.next() % 1_000_000) } else { None };
-    Case { pool, hold, ops, jitter, regs }
+    // a thread-local system that panics inside wait (epilogue), in half of the programs that have thread-local systems
+    let tls: Vec<u32> = regs.iter().filter_map(|r| match r { Reg::Tl { tag, .. } => Some(*tag), _ => None }).collect();
+    let tlf = if !tls.is_empty() && rng.chance(1, 2) { Some(tls[rng.below(tls.len() as u64) as usize]) } else { None };
+    Case { pool, hold, ops, jitter, tlf, regs }
 }
